@@ -99,6 +99,17 @@ func refBatchDigest(gid []byte, b *mhubtypes.BatchTx) []byte {
 		{"uint256", new(big.Int).SetUint64(b.BatchNonce)}, {"address", common.HexToAddress(b.ExternalTokenId)}, {"uint256", new(big.Int).SetUint64(b.Timeout)}}))
 }
 
+// ckpt calls a GetCheckpoint and turns a panic into a finding (no digest is no agreement with the contract).
+func ckpt(out *c07Out, what string, f func() []byte) (d []byte) {
+	defer func() {
+		if r := recover(); r != nil {
+			out.bad("checkpoint_panicked", what, "%v", r)
+			d = nil
+		}
+	}()
+	return f()
+}
+
 func refCallDigest(gid []byte, c *mhubtypes.ContractCallTx) []byte {
 	var ta, fa []*big.Int
 	var tc, fc []common.Address
@@ -178,7 +189,7 @@ func c07Run(tier string) *c07Out {
 		for _, n := range nonces {
 			for _, ml := range memberLists {
 				s := &mhubtypes.SignerSetTx{Nonce: n, Signers: ml}
-				got := s.GetCheckpoint(gid)
+				got := ckpt(out, "SignerSetTx.GetCheckpoint", func() []byte { return s.GetCheckpoint(gid) })
 				want := refSignerSetDigest(gid, s)
 				out.evals++
 				if !bytes.Equal(got, want) {
@@ -200,7 +211,7 @@ func c07Run(tier string) *c07Out {
 								Token: mhubtypes.ExternalToken{Amount: sdk.NewIntFromBigInt(amts[(ai+i)%4])}, Fee: mhubtypes.ExternalToken{Amount: sdk.NewIntFromBigInt(amts[(ai+2*i+1)%4])}})
 						}
 						b := &mhubtypes.BatchTx{BatchNonce: n, Timeout: to, Transactions: txs, ExternalTokenId: addr(3)}
-						got := b.GetCheckpoint(gid)
+						got := ckpt(out, "BatchTx.GetCheckpoint", func() []byte { return b.GetCheckpoint(gid) })
 						want := refBatchDigest(gid, b)
 						out.evals++
 						if !bytes.Equal(got, want) {
@@ -228,7 +239,7 @@ func c07Run(tier string) *c07Out {
 								fees = append(fees, mhubtypes.ExternalToken{Amount: sdk.NewIntFromBigInt(amts[(i+3)%4]), ExternalTokenId: addr(i + 1)})
 							}
 							c := &mhubtypes.ContractCallTx{InvalidationNonce: n, InvalidationScope: sc, Address: addr(2), Payload: bytes.Repeat([]byte{0xab}, pl), Timeout: n, Tokens: toks, Fees: fees}
-							got := c.GetCheckpoint(gid)
+							got := ckpt(out, "ContractCallTx.GetCheckpoint", func() []byte { return c.GetCheckpoint(gid) })
 							want := refCallDigest(gid, c)
 							out.evals++
 							if !bytes.Equal(got, want) {
@@ -328,7 +339,7 @@ func c07EVM(out *c07Out, keys []*ecdsa.PrivateKey, gids [][]byte, tier string) {
 				}
 				naddrs, npws, nmembers := mk(nxt)
 				tx := &mhubtypes.SignerSetTx{Nonce: 5, Signers: nmembers}
-				digest := tx.GetCheckpoint(gid)
+				digest := ckpt(out, "SignerSetTx.GetCheckpoint", func() []byte { return tx.GetCheckpoint(gid) })
 				call := func(h *evmhost.Host, dig []byte, tamper func(int, []byte) []byte, nonce uint64) error {
 					v, r, s := signAll(cur, dig, tamper)
 					_, err := h.Call("updateValset", naddrs, npws, new(big.Int).SetUint64(nonce), addrs, pws, big.NewInt(0), v, r, s)
@@ -364,7 +375,7 @@ func c07EVM(out *c07Out, keys []*ecdsa.PrivateKey, gids [][]byte, tier string) {
 					am, fe, de = append(am, big.NewInt(int64(10+i))), append(fe, big.NewInt(int64(i))), append(de, d)
 				}
 				b := &mhubtypes.BatchTx{BatchNonce: 3, Timeout: 1000, Transactions: txs, ExternalTokenId: h0.Token.Hex()}
-				digest := b.GetCheckpoint(gid)
+				digest := ckpt(out, "BatchTx.GetCheckpoint", func() []byte { return b.GetCheckpoint(gid) })
 				call := func(h *evmhost.Host, dig []byte, nonce uint64) error {
 					v, r, s := signAll(cur, dig, nil)
 					_, err := h.Call("submitBatch", addrs, pws, big.NewInt(0), v, r, s, am, de, fe, new(big.Int).SetUint64(nonce), h.Token, big.NewInt(1000))
@@ -394,7 +405,7 @@ func c07EVM(out *c07Out, keys []*ecdsa.PrivateKey, gids [][]byte, tier string) {
 				scope := []byte("scope")
 				c := &mhubtypes.ContractCallTx{InvalidationNonce: 1, InvalidationScope: scope, Address: h0.Token.Hex(), Payload: bytes.Repeat([]byte{0xab}, pl), Timeout: 1000,
 					Tokens: []mhubtypes.ExternalToken{{Amount: sdk.NewInt(5), ExternalTokenId: h0.Token.Hex()}}, Fees: []mhubtypes.ExternalToken{{Amount: sdk.NewInt(2), ExternalTokenId: h0.Token.Hex()}}}
-				digest := c.GetCheckpoint(gid)
+				digest := ckpt(out, "ContractCallTx.GetCheckpoint", func() []byte { return c.GetCheckpoint(gid) })
 				var inval [32]byte
 				copy(inval[:], scope)
 				type logicArgs struct {
